@@ -959,6 +959,13 @@ func c19MrtMutate(s *verifgen.Src, wire, other []byte) []byte {
 // RFC 8050 (independently of Rib.Serialize, which is subject to known issues), so that the
 // decoders of every RIB sub-type see well-formed input.
 func c19MrtHandRib(s *verifgen.Src) []byte {
+	w, _, _ := c19MrtHandRibFull(s, false)
+	return w
+}
+
+// c19MrtHandRibFull also returns the Rib the octets encode and the record's sub-type name; framed
+// restricts the GENERIC families to those whose NLRI is self-delimiting.
+func c19MrtHandRibFull(s *verifgen.Src, framed bool) ([]byte, *Rib, string) {
 	addPath := s.Bool()
 	var f bgp.Family
 	var sub uint16
@@ -974,6 +981,9 @@ func c19MrtHandRib(s *verifgen.Src) []byte {
 		f, sub = bgp.RF_IPv6_MC, uint16(RIB_IPV6_MULTICAST)
 	default:
 		f, sub, generic = verifgen.Pick(s, c19MrtGenericFamilies), uint16(RIB_GENERIC), true
+		if framed && verifgen.MaxNLRIPerAttr(f) == 1 {
+			f = bgp.RF_IPv6_VPN
+		}
 	}
 	if addPath {
 		sub += 6
@@ -981,9 +991,10 @@ func c19MrtHandRib(s *verifgen.Src) []byte {
 	prefix := verifgen.NLRI(s, f)
 	pb, err := prefix.Serialize()
 	if err != nil {
-		return nil
+		return nil, nil, ""
 	}
-	body := binary.BigEndian.AppendUint32(nil, s.U32())
+	seq := s.U32()
+	body := binary.BigEndian.AppendUint32(nil, seq)
 	if generic {
 		body = binary.BigEndian.AppendUint16(body, f.Afi())
 		body = append(body, f.Safi())
@@ -994,7 +1005,7 @@ func c19MrtHandRib(s *verifgen.Src) []byte {
 	for _, e := range entries {
 		eb, err := e.Serialize()
 		if err != nil {
-			return nil
+			return nil, nil, ""
 		}
 		body = append(body, eb...)
 	}
@@ -1002,7 +1013,55 @@ func c19MrtHandRib(s *verifgen.Src) []byte {
 	w = binary.BigEndian.AppendUint16(w, uint16(TABLE_DUMPv2))
 	w = binary.BigEndian.AppendUint16(w, sub)
 	w = binary.BigEndian.AppendUint32(w, uint32(len(body)))
-	return append(w, body...)
+	return append(w, body...), NewRib(seq, f, prefix, entries), c19MrtSubName(TABLE_DUMPv2, sub)
+}
+
+// c19MrtHandRoundTrip: the decoding half of the round trip for every RIB sub-type and family,
+// against the RFC 6396 encoding assembled by hand (Rib.Serialize is subject to known issues, which
+// would otherwise leave the IPv6 / multicast / generic decoders without an equality check).
+func c19MrtHandRoundTrip(s *verifgen.Src, st *verifkit.Stats) *verifkit.Failure {
+	wire, rib, name := c19MrtHandRibFull(s, true)
+	if wire == nil {
+		return nil
+	}
+	st.Label("rt-hand-encoded-" + name)
+	st.Label("rt-hand-encoded-family-" + rib.Family.String())
+	g := c19MrtGuarded(wire, 0xaa)
+	var h *MRTHeader
+	var p *MRTMessage
+	var err error
+	if f := c19MrtSafely("ParseHeader", func() { h, err = ParseHeader(g) }); f != nil {
+		return f
+	}
+	if err != nil {
+		return verifkit.Failf("hand-reparse-header", "%s: header does not parse: %v", name, err)
+	}
+	if f := c19MrtSafely("ParseBody", func() { p, err = ParseBody(g[MRT_COMMON_HEADER_LEN:], h) }); f != nil {
+		f.Msg += fmt.Sprintf(" (%s, wire %x)", name, wire)
+		return f
+	}
+	if err != nil {
+		return verifkit.Failf("hand-reparse", "an RFC 6396 %s record of family %s does not parse: %v\n encodes %s\n wire %x", name, rib.Family, err, c19MrtBodyString(rib), wire)
+	}
+	pr, ok := p.Body.(*Rib)
+	if !ok {
+		return verifkit.Failf("hand-not-equal", "%s parses as %T", name, p.Body)
+	}
+	if pr.Family == 0 && KnownIssues["mrt-rib-generic-family-lost"] {
+		st.Exclude("mrt-rib-generic-family-lost")
+		pr.Family = rib.Family
+	}
+	if j1, j2 := c19MrtJSON(rib), c19MrtJSON(pr); j1 != j2 {
+		return verifkit.Failf("hand-not-equal", "an RFC 6396 %s record decodes to a different RIB:\n encoded %s\n decoded %s\n wire %x", name, j1, j2, wire)
+	}
+	if s1, s2 := c19MrtBodyString(rib), c19MrtBodyString(pr); s1 != s2 {
+		return verifkit.Failf("hand-not-equal-string", "an RFC 6396 %s record decodes to a different RIB:\n encoded %s\n decoded %s", name, s1, s2)
+	}
+	st.SubEval(2)
+	if len(rib.Entries) >= 2 {
+		st.Nontrivial()
+	}
+	return nil
 }
 
 func c19MrtWire(s *verifgen.Src) []byte {
@@ -1030,6 +1089,9 @@ func runC19Mrt(c c19MrtCase, st *verifkit.Stats) *verifkit.Failure {
 	st.Label(c19MrtModeNames[mode])
 	switch mode {
 	case c19MrtRoundTrip:
+		if s.Chance(1, 4) {
+			return c19MrtHandRoundTrip(s, st)
+		}
 		return c19MrtRoundTripCheck(c19MrtBuild(s, st), st)
 	case c19MrtRaw:
 		in := c.Raw
